@@ -1,0 +1,12 @@
+//go:build verif
+
+// Contracts for package grammar, checked by /verif (bxv). Comment-only file.
+
+package grammar
+
+//@ func MatchOperator.NotPresentDisposition(op) (res)
+//@   ensures[C04,C05,C01] res == Disposition(op)
+//@   assigns nothing
+
+//@ func Selector.String(sel) (res)
+//@   assigns nothing
